@@ -157,14 +157,18 @@ def c11():
         target = 150000 if tr == "quick" else 600000
 
         def timed(big):
+            # judged on the processor time of the worker (collector off during the parse), best of up to 5 attempts: wall time on a loaded
+            # machine varies by an order of magnitude for one and the same parse
             best = None
-            for attempt in range(3):
+            for attempt in range(5):
                 rp = w.call({"op": "parse", "b64": b64(big)}, timeout=40)
                 if rp.get("hang") or "crash" in rp or "panic" in rp:
                     return rp, None
-                best = rp.get("us", 0) if best is None else min(best, rp.get("us", 0))
+                t = rp.get("cpu_us", rp.get("us", 0))
+                best = t if best is None else min(best, t)
                 if best <= 6 * len(big) + 200000:
                     break
+                time.sleep(0.3)
             return rp, best
 
         units = []
